@@ -32,6 +32,7 @@ func ssValues(full bool) []J {
 	vs := []J{
 		nInt(0), nInt(1), nInt(-1), nInt(64), nInt(9223372036854775807), nInt(-9223372036854775808),
 		nFloat(0), nFloat(1.5), nInf("/", nFloat(0), nFloat(0)), nInf("/", nFloat(1), nFloat(0)),
+		nFloat(9223372036854775808.0), nFloat(9007199254740992.0), nInt(9007199254740993),
 		nBool(true), nBool(false), nId("nil"),
 		nStr(""), nStr("a"), nStr("h\xc3\xa9llo"),
 		nArr(), nArr(nInt(1)), bigArr(),
@@ -39,7 +40,7 @@ func ssValues(full bool) []J {
 		nFn("", []string{"x"}, false, false, []any{nId("x")}),
 	}
 	if !full {
-		return []J{vs[0], vs[1], vs[2], vs[5], vs[7], vs[8], vs[10], vs[12], vs[14], vs[15], vs[16], vs[18], vs[19], vs[21], vs[22]}
+		return []J{vs[0], vs[1], vs[2], vs[4], vs[5], vs[7], vs[8], vs[10], vs[13], vs[15], vs[17], vs[18], vs[19], vs[21], vs[22], vs[24], vs[25]}
 	}
 	return vs
 }
